@@ -9,7 +9,7 @@
 //
 // usage: wsrace <N> <procs> <seed> <mix> <rounds>
 //   mix: letters cycled over the N sessions: U upgrader, H http upgrader, D dialer, M messages, Z compression,
-//        K control-frame storm
+//        K control-frame storm, P writers through the shared writer pool
 // stdout: same=<0|1> self=<0|1> diff=<index:kind:field|-> sessions=<N> ops=<total>
 // The race detector reports on stderr (GORACE=halt_on_error=0 exitcode=0 is set by the caller).
 package main
@@ -161,6 +161,68 @@ func (s *session) run(steps int) {
 		s.compressed(r, steps)
 	case 'K':
 		s.controls(r, steps*4)
+	case 'P':
+		s.pooled(r, steps*2)
+	}
+}
+
+// pooled: frame writers that really go through the shared writer pool (a writer whose Size() is one of the
+// pool's classes is kept by PutWriter): one step leaves a writer with flushing disabled and an extension
+// attached in the pool, the next takes a writer of that class and sends a long message in small pieces.
+// What is compared is the message level (what a reader with a frame-size limit gets), not the framing,
+// because a recycled writer may legitimately have a slightly different buffer than a new one.
+func (s *session) pooled(r *rng, steps int) {
+	for k := 0; k < steps; k++ {
+		s.ops++
+		if k%2 == 0 {
+			var sink bytes.Buffer
+			w := wsutil.NewWriterSize(&sink, ws.StateServerSide, ws.OpBinary, 4096)
+			w.DisableFlush()
+			var ms wsflate.MessageState
+			ms.SetCompressed(true)
+			w.SetExtensions(&ms)
+			w.Write(r.bytes(100 + r.intn(2000)))
+			w.Flush()
+			wsutil.PutWriter(w)
+			s.rec("P%d put", k)
+			runtime.Gosched()
+			continue
+		}
+		var wire bytes.Buffer
+		client := (s.idx+k)%4 == 1
+		st := ws.StateServerSide
+		if client {
+			st = ws.StateClientSide
+		}
+		w := wsutil.GetWriter(&wire, st, ws.OpBinary, 4096)
+		msg := r.bytes(20000 + r.intn(3000))
+		var err error
+		for off := 0; off < len(msg) && err == nil; off += 1000 {
+			end := off + 1000
+			if end > len(msg) {
+				end = len(msg)
+			}
+			_, err = w.Write(msg[off:end])
+			runtime.Gosched()
+		}
+		if err == nil {
+			err = w.Flush()
+		}
+		wsutil.PutWriter(w)
+		rst := ws.StateClientSide
+		if client {
+			rst = ws.StateServerSide
+		}
+		rd := &wsutil.Reader{Source: &wire, State: rst, MaxFrameSize: 4200}
+		h, rerr := rd.NextFrame()
+		var back []byte
+		if rerr == nil {
+			back, rerr = io.ReadAll(rd)
+		}
+		s.rec("P%d client=%v werr=%v rsv=%d rerr=%v back=%s", k, client, err, h.Rsv, rerr, dig(back))
+		if err != nil || rerr != nil || !bytes.Equal(back, msg) || h.Rsv != 0 {
+			s.fail("P%d: pooled writer: write err %v, read err %v, rsv %d, got %s want %s", k, err, rerr, h.Rsv, dig(back), dig(msg))
+		}
 	}
 }
 
